@@ -859,7 +859,7 @@ func main() {
 		// 3. random documents with 2-5 roots; one in six is a query
 		n := 40000
 		if h.Thorough() {
-			n = 250000
+			n = 1000000
 		}
 		for i := 0; i < n; i++ {
 			h.Case(func(r *rng.R) sexp.Node {
